@@ -33,7 +33,7 @@ def meta(tier):
                 assumptions=["canonicalisations applied by the oracle: keyword case, blanks, '::' dropped, compound keywords split, empty () after SUBROUTINE/CALL dropped",
                              "catalogue templates are written in the explicit-keyword forms (UNIT=, KIND=, LEN=)",
                              "names differ from keywords/intrinsics; labels have no leading zero"],
-                budget_s=420 if q else 1500, unit_budget_s=90 if q else 900)
+                budget_s=420 if q else 1200, unit_budget_s=90 if q else 900)
 
 
 def _no_group_commas(toks):
